@@ -13,7 +13,7 @@ WORDS = ["alpha", "β-eta", "ga mma", "😀x", "d:e", "#h", "@at", "|p", "\\b", 
          "e\u0301", "\u00a0nb", "x\u2003y", "𝔘", "<h1>", "<>", "<<h1>>", "\\n", "%s", "{0}", "\u200b", "ü", "日本語", "\x0b", "\r"]
 SAFE_WORDS = [w for w in WORDS if w not in ("\r",)]
 # examples header names: ordinary ones and ones hostile to pattern-based substitution
-HDRS = ["h1", "h2", "h3", "\\nkey", "key\\n", "a(b", "a.b", "$x", "\\\\", "<h1>", "[x]", "+", "*", "a\\|b", "(?i)", "{2}", "^", "h1)", "é", "😀", "x y"]
+HDRS = ["h1", "h2", "h3", "\\nkey", "key\\n", "", "e\u0301", "a(b", "a.b", "$x", "\\\\", "<h1>", "[x]", "+", "*", "a\\|b", "(?i)", "{2}", "^", "h1)", "é", "😀", "x y"]
 
 
 class Gen:
@@ -47,7 +47,7 @@ class Gen:
     def tags(self):
         for _ in range(self.r.randint(0, 2)):
             self.out.append(self.ind() + self.r.choice([" ", "  ", ""]).join(
-                "@" + self.r.choice(["t1", "t2", "😀", "a#b", "x-y", "t1", "@", "é"] + (["a\u00a0b", "c\u3000d", "e\u2003"] if self.r.random() < 0.03 else [])) for _ in range(self.r.randint(1, 3)))
+                "@" + self.r.choice(["t1", "t2", "😀", "a#b", "x-y", "t1", "@", "é"] + (["a\u00a0b", "c\u3000d", "e\u2003"] if self.r.random() < 0.03 else []) + (["i<h1>", "<h2>"] if self.r.random() < 0.1 else [])) for _ in range(self.r.randint(1, 3)))
                 + self.r.choice(["", " #c", "  ", " # @not"]))
             self.noise()
 
@@ -62,7 +62,7 @@ class Gen:
 
     def cell(self):
         return self.r.choice(["a", "b ", "", "  ", "\\|", "\\\\", "\\n", "x\\ny", "é😀", "<h1>", "\\", "a\\", "\\x", "c\\|d", " \\n", "\\n ",
-                              "a \\n", "\u00a0", "x\u3000", "\\\\n", "<h2>", "𝔘𝔘", "\t", "\u200bz\u200b", "\ufeffy", "\u2060"])
+                              "a \\n", "\u00a0", "x\u3000", "\\\\n", "<h2>", "𝔘𝔘", "\t", "\u200bz\u200b", "\ufeffy", "\u2060", "e\u0301x", "\u0e01\u0e33", "a\u030a\u0323"])
 
     def table(self, ncols=None, nrows=None):
         ncols = ncols or self.r.randint(1, 3)
